@@ -478,7 +478,8 @@ API_OUTS = ["default", "minify", "cli:0", "cli:1", "cli:2", "cli:3", "cli:4", "t
 PATHS_FIXED = API_OUTS + ["val_to_string", "manifestJson"]
 
 
-def std_program(src, exs):
+def std_programs(src, exs):
+    """(texts program, parseJson program): kept apart so that a failing std.parseJson does not hide the texts"""
     ex_calls = []
     for (i, n, k, arity) in exs:
         args = [core.jstr(i)]
@@ -488,12 +489,14 @@ def std_program(src, exs):
             args.append(core.jstr(k))
         ex_calls.append(f"std.manifestJsonEx(v, {', '.join(args)})")
     exl = ", ".join(ex_calls)
-    return (f"local v = {src};\n"
-            f"local texts = {{ mj: std.manifestJson(v), mm: std.manifestJsonMinified(v), ts: std.toString(v), "
-            f"cat: '' + v, cat2: v + '', ex: [{exl}] }};\n"
-            f"texts + {{ pj: {{ mj: std.parseJson(texts.mj), mm: std.parseJson(texts.mm), "
-            f"ts: if std.isString(v) then null else std.parseJson(texts.ts), "
-            f"ex: [std.parseJson(t) for t in texts.ex] }} }}")
+    texts = (f"local v = {src};\n"
+             f"{{ mj: std.manifestJson(v), mm: std.manifestJsonMinified(v), ts: std.toString(v), "
+             f"cat: '' + v, cat2: v + '', ex: [{exl}] }}")
+    pj = (f"local texts = {texts};\nlocal v = {src};\n"
+          f"{{ mj: std.parseJson(texts.mj), mm: std.parseJson(texts.mm), "
+          f"ts: if std.isString(v) then null else std.parseJson(texts.ts), "
+          f"ex: [std.parseJson(t) for t in texts.ex] }}")
+    return [texts, pj]
 
 
 FUN_CALLS = ["std.manifestJson(v)", "std.manifestJsonEx(v, ' ')", "std.manifestJsonMinified(v)",
@@ -626,24 +629,22 @@ def compare(expected, got, path="$", tol=0):
 
 
 # Coq parses ~2-4k list elements per second: the model side is budgeted in source bytes
-MODEL_CASE_MAX = 1500
-MODEL_BUDGET_QUICK = 160000
+MODEL_CASE_MAX = 700
+MODEL_BUDGET_QUICK = 60000
 MODEL_BUDGET_THOROUGH = 2500000
-DIGEST_P = 2305843009213693951
-
-
 def digest(bs):
-    h = 7
+    a = c = 0
     for b in bs:
-        h = (h * 1000003 + b + 1) % DIGEST_P
-    return (len(bs), h)
+        a += b + 1
+        c += a
+    return (len(bs), a, c)
 
 
 def opt_digest(t):
     if t == "None":
         return None
     assert isinstance(t, core.App) and t.name == "Some", t
-    return (int(t.args[0][0]), int(t.args[0][1]))
+    return tuple(int(x) for x in t.args[0])
 
 
 def model_compare(run, model_exprs, model_meta, fmeta, model_diffs):
@@ -696,6 +697,29 @@ KNOWN_PJ = "C05-parsejson-number-not-correctly-rounded"
 PJ_TOL = 2
 
 
+KNOWN_PJ_MAX = "C05-parsejson-max-double-out-of-range"
+F64_MAX_BITS = 0x7FEFFFFFFFFFFFFF
+
+
+def has_max_double(v):
+    if v[0] == "num":
+        return (v[1] & ~(1 << 63)) == F64_MAX_BITS
+    if v[0] == "arr":
+        return any(has_max_double(x) for x in v[1])
+    if v[0] == "obj":
+        return any(has_max_double(x) for _, x in v[1])
+    return False
+
+
+def classify_parsejson_error(run, failure, v, answer):
+    """std.parseJson(text) is an ERROR (not a panic) and the value contains +-f64::MAX: the imprecise
+    float parser of serde_json rounds the 309-digit token up to infinity."""
+    if has_max_double(v) and isinstance(answer, dict) and answer.get("err") == "RuntimeError":
+        failure["known"] = KNOWN_PJ_MAX
+        failure["summary"] = failure["summary"].replace("C05 [", "C05 known [", 1)
+        run.count("known:parsejson-max-double")
+
+
 def classify_parsejson(run, failure, v, got):
     """std.parseJson(text) differs from the value ONLY in numbers, each by at most PJ_TOL ulps, while the text
     itself is exact (the oracle read the same text back bit for bit): serde_json without `float_roundtrip`."""
@@ -718,7 +742,7 @@ def correspond(run, binary, cases, fcases, use_model=True):
     reqs, meta = [], []
     for v, src in cases:
         exs = pick_exs(rng)
-        reqs.append({"code": src, "outs": API_OUTS, "also": [std_program(src, exs)]})
+        reqs.append({"code": src, "outs": API_OUTS, "also": std_programs(src, exs)})
         meta.append((v, src, exs, len(reqs) - 1))
     fmeta = []
     for v, src in fcases:
@@ -768,7 +792,7 @@ def correspond(run, binary, cases, fcases, use_model=True):
         a = ans["also"][0]
         pj = None
         if "ok" not in a:
-            fail("std", "std manifest/parse program failed on a manifestable value", "texts", a)
+            fail("std", "std.manifestJson*/toString program failed on a manifestable value", "texts", a)
         else:
             d_ = dict(from_canon(a["ok"])[1])
             for nm in ("mj", "mm", "ts", "cat", "cat2"):
@@ -778,7 +802,12 @@ def correspond(run, binary, cases, fcases, use_model=True):
                     texts[nm] = d_[nm][1]
             for i, t in enumerate(d_["ex"][1]):
                 texts[f"ex{i}"] = t[1] if t[0] == "str" else None
-            pj = dict(d_["pj"][1])
+            a2 = ans["also"][1]
+            if "ok" not in a2:
+                fail("parseJson(std texts)", "std.parseJson rejects a text std.manifestJson*/toString emitted", show(v), a2)
+                classify_parsejson_error(run, failures[-1], v, a2)
+            else:
+                pj = dict(from_canon(a2["ok"])[1])
         # the oracle
         toks_min = None
         for name, t in texts.items():
@@ -863,6 +892,7 @@ def correspond(run, binary, cases, fcases, use_model=True):
                 failures.append({"case": {"jsonnet": src, "path": f"parseJson({names2})", "value": show(v)},
                                  "summary": f"C05 [parseJson(API text)] std.parseJson rejects the emitted text: {src[:160]}",
                                  "what": "parseJson failed", "expected": show(v), "got": o})
+                classify_parsejson_error(run, failures[-1], v, o)
                 continue
             for name, x in zip(names2, from_canon(o["ok"])[1]):
                 d = compare(v, x)
